@@ -4,6 +4,7 @@ go 1.20
 
 require (
 	github.com/evanoberholster/imagemeta v0.0.0
+	github.com/rs/zerolog v1.29.0
 	github.com/tinylib/msgp v1.1.8
 )
 
@@ -13,7 +14,6 @@ require (
 	github.com/mattn/go-isatty v0.0.17 // indirect
 	github.com/philhofer/fwd v1.1.2 // indirect
 	github.com/pkg/errors v0.9.1 // indirect
-	github.com/rs/zerolog v1.29.0 // indirect
 	golang.org/x/sys v0.5.0 // indirect
 )
 
